@@ -152,7 +152,7 @@ package modm
 //@   loop#5 invariant 1 <= b && b <= 7
 //@   loop#6 modifies k, *r
 //@   loop#6 invariant j + b <= k && k <= 256
-//@   assume-ensures forall(k, 0, 256, r[k] == 0 || (r[k] % 2 == 1 && 0 - pow2(windowSize - 1) < r[k] && r[k] < pow2(windowSize - 1)))
+//@   assume-ensures forallq(k, 0, 256, r[k] == 0 || (r[k] % 2 == 1 && 0 - pow2(windowSize - 1) < r[k] && r[k] < pow2(windowSize - 1)))
 //@   assume-ensures sval(old(*s)) < 1<<253 ==> sum(k, 0, 256, r[k] * pow2(k)) == sval(old(*s))
 
 // 32-bit layout: 9 limbs of 30 bits
@@ -296,5 +296,5 @@ package modm
 //@   loop#5 invariant 1 <= b && b <= 7
 //@   loop#6 modifies k, *r
 //@   loop#6 invariant j + b <= k && k <= 256
-//@   assume-ensures forall(k, 0, 256, r[k] == 0 || (r[k] % 2 == 1 && 0 - pow2(windowSize - 1) < r[k] && r[k] < pow2(windowSize - 1)))
+//@   assume-ensures forallq(k, 0, 256, r[k] == 0 || (r[k] % 2 == 1 && 0 - pow2(windowSize - 1) < r[k] && r[k] < pow2(windowSize - 1)))
 //@   assume-ensures sval(old(*s)) < 1<<253 ==> sum(k, 0, 256, r[k] * pow2(k)) == sval(old(*s))
